@@ -190,7 +190,7 @@ struct Items {
     truth: Option<String>,
 }
 
-const NUMS: [f64; 8] = [0.0, 1.0, 0.5, 0.9, 0.25, 0.125, 0.75, 0.99];
+const NUMS: [f64; 12] = [0.0, 1.0, 0.5, 0.9, 0.25, 0.125, 0.75, 0.99, 0.123456789012345, 0.0000001, 0.30000000000000004, 0.9999999999];
 
 fn gen_items(ch: &mut Choices, f: usize, gp: &GenParams) -> Items {
     let fmt = &ENUM_FORMATS[f];
@@ -214,7 +214,7 @@ fn gen_items(ch: &mut Choices, f: usize, gp: &GenParams) -> Items {
             1 => Some(fmt.format_stamp(&Stamp::Past)),
             2 => Some(fmt.format_stamp(&Stamp::Present)),
             3 => Some(fmt.format_stamp(&Stamp::Future)),
-            _ => Some(fmt.format_stamp(&Stamp::Fixed([0isize, -1, 42, 137, -9000][ch.choose(5) as usize]))),
+            _ => Some(fmt.format_stamp(&Stamp::Fixed([0isize, -1, 42, 137, -9000, isize::MAX, isize::MIN + 1, 1 << 40][ch.choose(8) as usize]))),
         }
     } else {
         None
@@ -279,10 +279,10 @@ fn gen_request(ch: &mut Choices, gp: &GenParams, fault_rate: u32, f: usize) -> R
     let tb = fmt.sentence.truth_brackets;
     let bb = fmt.task.budget_brackets;
     let a_truth = |ch: &mut Choices| -> String {
-        it.truth.clone().unwrap_or_else(|| format!("{}{}{}0.5{}", tb.0, NUMS[ch.choose(8) as usize], fmt.sentence.truth_separator, tb.1))
+        it.truth.clone().unwrap_or_else(|| format!("{}{}{}0.5{}", tb.0, NUMS[ch.choose(NUMS.len() as u32) as usize], fmt.sentence.truth_separator, tb.1))
     };
     let a_budget = |ch: &mut Choices| -> String {
-        it.budget.clone().unwrap_or_else(|| format!("{}{}{}", bb.0, NUMS[ch.choose(8) as usize], bb.1))
+        it.budget.clone().unwrap_or_else(|| format!("{}{}{}", bb.0, NUMS[ch.choose(NUMS.len() as u32) as usize], bb.1))
     };
     let a_punct = || it.punct.clone().unwrap_or_else(|| fmt.sentence.punctuation_judgement.to_string());
     let a_stamp = || it.stamp.clone().filter(|s| !s.is_empty()).unwrap_or_else(|| fmt.format_stamp(&Stamp::Present));
@@ -851,6 +851,7 @@ pub fn run_sessions(ch: &mut Choices, verbose: bool) -> SessionsReport {
         exotic: false,
         stop_den: 3,
         cjk_names: false,
+        many_names: false,
     };
     let gp = GenParams { cjk_names: ch.chance(1, 3), ..gp };
     let main_format = ch.choose(3) as usize;
@@ -1060,7 +1061,7 @@ fn run_concurrent_callers(ch: &mut Choices, verbose: bool) -> SessionsReport {
     let fault_rate = [0u32, 25, 50][ch.weighted(&[30, 40, 30])];
     let switch_den = [1u64, 2, 4, 16][ch.weighted(&[20, 30, 30, 20])];
     let sched_seed = ch.bits() as u64;
-    let gp = GenParams { max_depth: ch.range(1, 3), max_fan: ch.range(1, 3), n_names: ch.range(2, 5), unordered_bias: ch.choose(3), exotic: false, stop_den: 3, cjk_names: ch.chance(1, 3) };
+    let gp = GenParams { max_depth: ch.range(1, 3), max_fan: ch.range(1, 3), n_names: ch.range(2, 5), unordered_bias: ch.choose(3), exotic: false, stop_den: 3, cjk_names: ch.chance(1, 3), many_names: false };
     let main_format = ch.choose(3) as usize;
     let mixed = ch.chance(1, 2);
     let n_reqs = ch.range(3, 10) as usize;
